@@ -336,4 +336,38 @@ func runC25(c *eng.Ctx) {
 			c.Ob("GUARD-commit", eng.FuncName(fn)+" failed-commit-deletes-uploaded-chunks", okDel, create[0].Pos(), "when the commit fails (and only then) the chunks uploaded for the request are handed to deletion")
 		}
 	}
+
+	// the body is read to its end: the chunking loop is left only after a short read (the reader is exhausted), an
+	// empty read or a read error — never after a full chunk, whatever is done with that chunk (inline or uploaded)
+	if fn := c.NeedFunc("weed/server", "(*FilerServer).uploadReaderToChunks"); fn != nil {
+		reads := eng.Find(fn, eng.PlainCallTo("bytes.Buffer).ReadFrom"))
+		waits := eng.Find(fn, eng.PlainCallTo("sync.WaitGroup).Wait"))
+		if len(reads) != 1 || len(waits) != 1 {
+			c.Undecided("ERR-body", eng.FuncName(fn)+" reads-to-the-end", fn.Pos(), "chunk read / final wait not found")
+		} else {
+			n := eng.ResultOf(reads[0], 0)
+			e := eng.ResultOf(reads[0], 1)
+			short := func(cond ssa.Value) (bool, bool) {
+				b, ok := cond.(*ssa.BinOp)
+				if !ok {
+					return false, false
+				}
+				if b.X == n && eng.Mentions(b.Y, 3, func(v ssa.Value) bool { return eng.IsParamLike(v, "chunkSize") }) {
+					switch b.Op {
+					case token.LSS:
+						return true, true
+					case token.GEQ:
+						return true, false
+					}
+				}
+				if b.X == n && isZero(b.Y) && b.Op == token.EQL {
+					return true, true
+				}
+				return false, false
+			}
+			done := eng.MergeEdges(eng.PassEdges(fn, short), eng.PassEdges(fn, eng.ErrNotNil(e)))
+			hit, path := eng.Search(eng.After(reads[0]), eng.Is(waits[0]), eng.SearchOpt{Cut: done, Barrier: eng.Is(reads[0])})
+			c.Ob("ERR-body", eng.FuncName(fn)+" reads-to-the-end", hit == nil && len(done) >= 2, reads[0].Pos(), "the chunking loop ends only after a short or empty read or a read error"+pathNote(P, fn, hit, path))
+		}
+	}
 }
